@@ -57,7 +57,7 @@ TRUSTED = [
 PARTIAL = [
     "modelled-not-verified: the ddp_hooks branch of remove_hooks (distributed per-layer optimizer) is not modelled",
     "requires_grad is constant after wrapping; backward always refers to the most recent outstanding forward; tied parameters and DPRNN layers (shared RNNLinear cells) are not generated",
-    "asCoded: to_standard_module leaves activations / max_batch_len / summed_grad / _norm_sample / _is_full_backward_hook behind and raises on a frozen parameter (findings); the full statement is proved for the repaired variant only",
+    "to_standard_module: activations / max_batch_len / _norm_sample and the frozen-parameter crash are repaired in /repo (fix commits 223586f, 78f89bc); it still leaves `summed_grad` (owned by the optimizer) and the legacy-hook flag `_is_full_backward_hook` behind (known findings): the model carries one switch per leftover, set from what this tree does, and the full statement is proved for the all-repaired variant",
 ]
 
 MODES = ["hooks", "functorch", "ew", "ghost"]
@@ -106,6 +106,8 @@ def gen_program(rng, mode, fix, max_iter):
             ops += ["ozg", "fwd 1", "bwd", "step 0", "step 0"]   # processed-flag branch
         else:
             ops += [zg, "fwd 1", "bwd"]
+    if mode != "ew" and rng.random() < 0.2:
+        ops.append("hooks 0")                      # unwrapped while the hooks are disabled (not: removed)
     ops.append("unwrap " + fix)
     return ops
 
